@@ -18,15 +18,23 @@ SamplerBad(w)  == [ok |-> FALSE, v |-> NLit(0), why |-> w]
 (* unbiased_randrange(start, stop, f) given the log of what f served: every  *)
 (* request asks for size_bytes(stop-start) bytes, every draw but the last is *)
 (* rejected (candidate >= width), the last one is accepted                   *)
+(* The entropy consumed is what matters, not how it is split into requests:   *)
+(* the bytes served are concatenated and cut into draws of size_bytes(width)  *)
+(* bytes.  (The code asks for one draw per request.)                          *)
+RECURSIVE ConcatGot(_)
+ConcatGot(log) == IF log = <<>> THEN <<>> ELSE log[1].got \o ConcatGot(Tail(log))
 Randrange(start, stop, log) ==
   LET maxval == NSub(stop, start)
       nb     == SizeBytes(maxval)
-      n      == Len(log)
+      bytes  == ConcatGot(log)
+      n      == Len(bytes) \div nb
       mp1    == TopMask(maxval) + 1
-      cand(i) == CandidateM(log[i].got, mp1)
-  IN IF n = 0 THEN SamplerBad("no entropy drawn")
-     ELSE IF \E i \in 1..n : log[i].req # nb \/ Len(log[i].got) # nb
-          THEN SamplerBad("request size is not size_bytes(width)")
+      cand(i) == CandidateM(SubSeq(bytes, (i - 1) * nb + 1, i * nb), mp1)
+  IN IF Len(log) = 0 \/ bytes = <<>> THEN SamplerBad("no entropy drawn")
+     ELSE IF \E i \in 1..Len(log) : Len(log[i].got) # log[i].req
+          THEN SamplerBad("entropy function returned a wrong number of bytes")
+     ELSE IF Len(bytes) % nb # 0
+          THEN SamplerBad("entropy consumed is not a whole number of draws of size_bytes(width) bytes")
      ELSE IF \E i \in 1..(n - 1) : NLt(cand(i), maxval)
           THEN SamplerBad("drew again although an earlier draw was in range")
      ELSE IF ~NLt(cand(n), maxval)
@@ -37,8 +45,6 @@ Randrange(start, stop, log) ==
 (* The code asks for them in one request; the property only demands 512 fresh   *)
 (* bits, so any split into requests is allowed as long as exactly 64 bytes are  *)
 (* consumed, in order.                                                          *)
-RECURSIVE ConcatGot(_)
-ConcatGot(log) == IF log = <<>> THEN <<>> ELSE log[1].got \o ConcatGot(Tail(log))
 EdRandomScalar(L, log) ==
   IF Len(log) = 0 THEN SamplerBad("Ed25519 draws 64 bytes")
   ELSE IF \E i \in 1..Len(log) : Len(log[i].got) # log[i].req THEN SamplerBad("entropy function returned a wrong number of bytes")
